@@ -49,6 +49,10 @@ fn main() {
             let n: usize = args[6].parse().expect("nshards");
             core::run_shard(&p, tier, seed, i, n, std::path::Path::new(&args[7]));
         }
+        "envprobe" => {
+            // one evaluation workload under the LD_PRELOAD shim (child process of C12): prints what it observed
+            std::process::exit(rvmon::c12::env_probe());
+        }
         "contextprobe" => {
             // parsing from unusual calling contexts (child process of C06: an abort here is observed through the exit status)
             std::process::exit(rvmon::c06::context_probe());
